@@ -15,7 +15,8 @@ CASE_TIMEOUT = 1200
 RULE = ("cases = polar zoo crystal x supercell x primitive matrix x method (wang|gonze) x full/compact x unit factor; per case: 8 directions n at Gamma "
         "(incl. n scaled by 1e-3 and 1e3, and q = small vector along n without q_direction), all commensurate q != 0 (Wang exact; Gonze-Lee exact at the unique "
         "first-BZ representative, reciprocal-sum precision at tied/outside ones), zero Born charges at random q and at Gamma with direction, "
-        "symmetrised (Z, eps) vs harness group average; non-trivial = max|NAC term|>1e-6 of max|D| and N>1; distinct = (crystal, smat, pmat, method, layout)")
+        "symmetrised (Z, eps) vs harness group average; non-trivial = max|NAC term|>1e-6 of max|D| and N>1; distinct = (crystal, smat, pmat, method, layout); "
+        "additions of rounds 6-8: thread counts 1-16; requests of several q-points with the exact zone centre in the middle, without and with a direction; near-tied zone-boundary images counted the way phonopy's BrillouinZone counts them; directions below the documented zero tolerance skipped")
 ASSUMPTIONS = [
     "n.Z contracts the first Cartesian index of the Born tensor (field/polarisation index), as documented for the BORN file",
     "Gonze-Lee: 'stated reciprocal-sum precision' taken as 1e-3 of the dipole-dipole scale away from the first-BZ representative used in its construction",
